@@ -99,6 +99,24 @@ class C20(E1Prop):
                 for o in seq:
                     o['dt'] = rng.choice([1, 5, 30])
                 self.script = seq
+            elif rng.random() < 0.25:
+                # story: a destination branch is archived and then asked
+                # for again (never for a version that was archived)
+                dests = [d for d in ops.dest_branches(w.cfg)
+                         if not d.startswith('hotfix/')]
+                d = rng.choice(dests)
+                seq = [{'op': 'api', 'job': 'delete_branch',
+                        'kwargs': {'branch': d}}]
+                for i in range(rng.choice([0, 0, 1])):
+                    seq.append({'op': 'tag', 'on': rng.choice(dests),
+                                'name': rng.choice(['0.9.%d', '1.0.%d',
+                                                    '4.3.%d']) % i})
+                seq.append({'op': 'api', 'job': 'create_branch',
+                            'kwargs': {'branch': d}})
+                seq.append({'op': 'deliver_all'})
+                for o in seq:
+                    o['dt'] = rng.choice([1, 5, 30])
+                self.script = seq
         if getattr(self, 'script', None):
             op = self.script.pop(0)
         else:
